@@ -8,7 +8,8 @@ from ..effects import effects_for, Effect, star
 
 QUERIES = [('fggs.sum_product', 'sum_product'), ('fggs.sum_product', 'sum_products'), ('fggs.viterbi', 'viterbi'),
            ('fggs.factorize', 'factorize_rule'), ('fggs.factorize', 'factorize_hrg'), ('fggs.factorize', 'factorize_fgg'),
-           ('fggs.conjunction', 'conjoin_hrgs'), ('fggs.formats', 'fgg_to_json'), ('fggs.formats', 'hrg_to_json')]
+           ('fggs.conjunction', 'conjoin_hrgs'), ('fggs.formats', 'fgg_to_json'), ('fggs.formats', 'hrg_to_json'),
+           ('fggs.derivations', 'FGGDerivation.derive')]
 DOCUMENTED = {('factorize_rule', 'labels'): 'documented: "New EdgeLabels are added to the set"'}
 
 
